@@ -182,7 +182,7 @@ Core ==
       \* answers to the source address of a received message use the inbound connection while it lives
       <<<<T(1, 2)>>, <<S(T(2, 1))>>, <<S(A(2, 1))>>, <<K(1, 2)>>, <<S(T(2, 1))>>, <<T(2, 1)>>>>,
       <<<<T(1, 2), T(1, 2)>>, <<S(T(2, 1)), T(1, 2)>>, <<T(2, 1)>>>>,
-      \* a closed ssh node keeps its connections (recorded) and can still be talked to over them
+      \* a closed ssh node has closed its connections: its peer notices, dials again and is refused
       <<<<T(1, 2)>>, <<C(2)>>, <<T(1, 2)>>, <<A(1, 2)>>, <<K(1, 2)>>, <<T(1, 2)>>>>
     >> ELSE <<
       \* a graceful restart: the peer may or may not hear of it
